@@ -171,7 +171,7 @@ pub fn atoms(thorough: bool) -> Vec<Atom> {
     v
 }
 
-const KITCHEN_VF: &str = "struct VertexInput { @location(0) position: vec3<f32>, @builtin(vertex_index) vi: u32, @location(1) uv: vec2<f32> };\nstruct Instance { @location(4) model0: vec4<f32>, @location(5) model1: vec4<f32> };\nstruct VertexOutput { @builtin(position) clip: vec4<f32>, @location(0) uv: vec2<f32> };\nstruct Camera { view: mat4x4<f32>, pos: vec3<f32>, exposure: f32 };\nstruct Light { colour: vec4<f32>, dir: vec4<f32> };\nstruct Lights { count: vec4<u32>, items: array<Light, 4> };\noverride gamma: f32 = 2.2;\n@id(1) override use_fog: bool;\nconst PI: f32 = 3.14159;\nconst TAU = 6.28318;\nvar<push_constant> time: vec4<f32>;\n@group(0) @binding(0) var<uniform> camera: Camera;\n@group(0) @binding(1) var<storage, read> lights: Lights;\n@group(1) @binding(0) var albedo: texture_2d<f32>;\n@group(1) @binding(1) var albedo_sampler: sampler;\n@group(1) @binding(5) var shadow: texture_depth_2d;\n@group(1) @binding(6) var shadow_sampler: sampler_comparison;\nfn fog(d: f32) -> f32 { return exp(-d * time.x); }\n@vertex fn vs_main(v: VertexInput, i: Instance) -> VertexOutput { var o: VertexOutput; o.clip = camera.view * vec4<f32>(v.position, 1.0) + i.model0 + i.model1; o.uv = v.uv; return o; }\n@fragment fn fs_main(in: VertexOutput) -> @location(0) vec4<f32> { var c = textureSample(albedo, albedo_sampler, in.uv) * lights.items[0].colour; let s = textureSampleCompare(shadow, shadow_sampler, in.uv, 0.5); if use_fog { c = c * fog(in.clip.z); } return pow(c * s, vec4<f32>(1.0 / gamma)) * PI / TAU; }\n";
+pub const KITCHEN_VF: &str = "struct VertexInput { @location(0) position: vec3<f32>, @builtin(vertex_index) vi: u32, @location(1) uv: vec2<f32> };\nstruct Instance { @location(4) model0: vec4<f32>, @location(5) model1: vec4<f32> };\nstruct VertexOutput { @builtin(position) clip: vec4<f32>, @location(0) uv: vec2<f32> };\nstruct Camera { view: mat4x4<f32>, pos: vec3<f32>, exposure: f32 };\nstruct Light { colour: vec4<f32>, dir: vec4<f32> };\nstruct Lights { count: vec4<u32>, items: array<Light, 4> };\noverride gamma: f32 = 2.2;\n@id(1) override use_fog: bool;\nconst PI: f32 = 3.14159;\nconst TAU = 6.28318;\nvar<push_constant> time: vec4<f32>;\n@group(0) @binding(0) var<uniform> camera: Camera;\n@group(0) @binding(1) var<storage, read> lights: Lights;\n@group(1) @binding(0) var albedo: texture_2d<f32>;\n@group(1) @binding(1) var albedo_sampler: sampler;\n@group(1) @binding(5) var shadow: texture_depth_2d;\n@group(1) @binding(6) var shadow_sampler: sampler_comparison;\nfn fog(d: f32) -> f32 { return exp(-d * time.x); }\n@vertex fn vs_main(v: VertexInput, i: Instance) -> VertexOutput { var o: VertexOutput; o.clip = camera.view * vec4<f32>(v.position, 1.0) + i.model0 + i.model1; o.uv = v.uv; return o; }\n@fragment fn fs_main(in: VertexOutput) -> @location(0) vec4<f32> { var c = textureSample(albedo, albedo_sampler, in.uv) * lights.items[0].colour; let s = textureSampleCompare(shadow, shadow_sampler, in.uv, 0.5); if use_fog { c = c * fog(in.clip.z); } return pow(c * s, vec4<f32>(1.0 / gamma)) * PI / TAU; }\n";
 const KITCHEN_C: &str = "struct Particle { pos: vec4<f32>, vel: vec4<f32> };\nstruct Params { dt: f32, n: u32, pad0: u32, pad1: u32 };\n@group(0) @binding(0) var<uniform> params: Params;\n@group(0) @binding(1) var<storage, read_write> particles: array<Particle>;\n@group(0) @binding(2) var out_tex: texture_storage_2d<rgba8unorm, write>;\nstruct Counter { hits: atomic<u32> };\n@group(0) @binding(3) var<storage, read_write> counter: Counter;\nvar<workgroup> tile: array<vec4<f32>, 64>;\nconst WG: u32 = 64u;\n@compute @workgroup_size(WG) fn update(@builtin(global_invocation_id) id: vec3<u32>, @builtin(local_invocation_index) li: u32) { if id.x < params.n { particles[id.x].pos += particles[id.x].vel * params.dt; tile[li] = particles[id.x].pos; } workgroupBarrier(); atomicAdd(&counter.hits, 1u); textureStore(out_tex, vec2<i32>(id.xy), tile[0]); }\n@compute @workgroup_size(8, 8) fn clear() { textureStore(out_tex, vec2<i32>(0), vec4<f32>(0.0)); }\n";
 
 fn base_configs() -> Vec<Config> {
